@@ -337,6 +337,13 @@ func (s *Scan) readMetadata(path string) error {
 		if mc.Step, err = num(c.Constraints, "StepValue"); err != nil {
 			return fmt.Errorf("%s: %v", c.Name, err)
 		}
+		if _, has := c.Constraints["StepValue"]; !has {
+			// the metadata spells the key of one characteristic (Filter Life Level) "stepValue": it is the metadata's
+			// step all the same (F58; this scanner used to skip it like the generator did)
+			if mc.Step, err = num(c.Constraints, "stepValue"); err != nil {
+				return fmt.Errorf("%s: %v", c.Name, err)
+			}
+		}
 		if mc.MaxLen, err = num(c.Constraints, "MaximumLength"); err != nil {
 			return fmt.Errorf("%s: %v", c.Name, err)
 		}
@@ -352,7 +359,7 @@ func (s *Scan) readMetadata(path string) error {
 		}
 		for k := range c.Constraints {
 			switch k {
-			case "MinimumValue", "MaximumValue", "StepValue", "MaximumLength", "ValidValues", "ValidBits":
+			case "MinimumValue", "MaximumValue", "StepValue", "stepValue", "MaximumLength", "ValidValues", "ValidBits":
 			default:
 				mc.OtherKeys = append(mc.OtherKeys, k)
 			}
